@@ -19,7 +19,10 @@ EXPECTED_FINDINGS = {"fixed (regression traces in corpus/C16, a reappearance is 
 def run(tier, seed, t0, H):
     n = 150 if tier == "quick" else 1500
     ob, facts, axioms, built = H.prelude(PROP, MODULE, tier)
-    rule = ("corpus witnesses + seeded invitation histories on the recipient (memory or SQLite): one or two groups by two inviters, the invitation received under "
+    rule = ("corpus witnesses + seeded invitation histories on the recipient (memory or SQLite); 2 of 5 are COLLISION histories: a second inviter's group rotated ONTO the nostr group id of a group the "
+            "recipient holds (and the held group rotated onto the other's), the recipient holding the other group in every state (none / pending / active / declined / inactive), the colliding invitation "
+            "arriving before or after, processed, replayed under other wrapper ids, accepted, declined, the held group rotating away again before the retry, probes of the held group before and after "
+            "every invitation op; the other 3 of 5: one or two groups by two inviters (commits, renames and id rotations in between), the invitation received under "
             "wrapper ids 0–3 at random points incl. after further commits / renames / eviction + re-invitation, a welcome for the held MLS group id forged by a non-member, accept / decline in any order, id-less, structurally "
             "invalid, undecodable and misaddressed rumors, commits delivered or skipped, decrypt probes; recipient states none / pending / active / inactive. "
             "non-trivial = a history in which an invitation op met a group the recipient already held (pending, active or inactive); distinct by op list")
@@ -56,7 +59,7 @@ def run(tier, seed, t0, H):
                     "correspondence_disagreements": len(corr), "oracle_failures": len(ofails), "oracle_failure_signatures": sigs,
                     "finding_signatures": EXPECTED_FINDINGS,
                     "samples": [{"ops": c["ops"], "impl": [x[:240] for x in c["impl"]]} for c in cases if c["id"].startswith("gen-")][-1:],
-                    "generated_facts": {k: v for k, v in (facts or {}).items() if k.startswith("welcome")}}
+                    "generated_facts": {k: v for k, v in (facts or {}).items() if k.startswith("welcome") or k in ("sqlSaveGroupConflictTarget", "sqlNostrGroupIdUnique", "memSaveGroupRefusesForeignNostrId")}}
     else:
         coverage = {"evaluations": 1, "distinct_nontrivial": 0, "rule": rule, "samples": ["build failed"]}
     coverage["axioms_used"] = H.axiom_summary(axioms)
@@ -65,6 +68,6 @@ def run(tier, seed, t0, H):
                     ["PARTIAL: `no_disturb` (full strength) is still FALSE of the code (a different rumor for a held group id: foreign creator, another genuine invitation) and kept as a def with closed witnesses; proved: no_disturb_partial and no_disturb_when_harmless (every replay of a stored rumor, every re-accept / late decline of an Accepted welcome, every invitation to a group not held Active), same_rumor_idempotent, accepted_welcome_final, refused_process_no_effect",
                      "OpenMLS is abstract: an invitation is the (group id, post-commit token, epoch, member count, group data) its preview yields; `into_group` with replace_old_group overwrites the MLS group of that id; a welcome stays decodable after it was accepted (observed: key packages are not consumed) — all exercised by the correspondence run, not proved",
                      "group traffic is modelled only as far as the property needs it (a commit applies iff the member is in its parent state; a message decrypts iff the member is in the sender's state); other outcomes of process_message are compared as 'did not apply'",
-                     "rumors whose group data collides with ANOTHER held group's nostr id (refused by save_group's uniqueness check in the model) and gift-wrap (kind 1059) handling are not generated by the harness; welcomes for a held MLS group id by a different creator ARE (forge, via MlsGroup::new_with_group_id)",
+                     "the nostr group id is a field of record, invitation and stored welcome; collisions with ANOTHER held record are generated in both directions (rotonto) and refused by save_group's uniqueness rule (theorems collision_refused / collision_frame / collision_leftovers, invariant nid_unique_inv over invitation ops + commits incl. rotations + probes); the store's refusal of a ROTATION onto a held id after the MLS merge (known mechanism store-limit-sync-failure of C06 / C08) is modelled (deliverCommit .syncFailed) and generated, it is group traffic and not judged by C16's oracle; the memory backend's LRU eviction is not modelled here; gift-wrap (kind 1059) handling is not generated; welcomes for a held MLS group id by a different creator ARE (forge, via MlsGroup::new_with_group_id)",
                      "timestamps (processed_at) are not observed"],
                     checker, H.TRUSTED + [f"axioms actually used: {H.axiom_summary(axioms)}", "harness/src/invite.rs on top of harness/src/world.rs"])
